@@ -38,6 +38,21 @@ class Rec(object):
 
     def add(self, setname, item):
         self.sets.setdefault(setname, set()).add(item if isinstance(item, str) else repr(item))
+        if setname == 'raised':
+            # every workload call is a VALID call: one that raises produced no result at all, which no
+            # result-property tolerates (on the unchanged tree no workload call raises)
+            case = None
+            try:
+                f = sys._getframe(1)
+                for _ in range(4):
+                    if 'case' in f.f_locals and isinstance(f.f_locals['case'], dict):
+                        case = f.f_locals['case']
+                        break
+                    f = f.f_back
+            except Exception:
+                pass
+            self.violation('valid_call_raised', 'a valid call of the workload raised instead of '
+                           'returning a result: %s' % (item,), case=case)
 
     def sample(self, obj, limit=3):
         if len(self.samples) < limit:
